@@ -8,6 +8,8 @@
      "sleep" d           blocking operation of d ticks (d = 0: a bare checkpoint)
      "cancel" id         scope id .cancel()            "resched" id d   scope id .reschedule(now + d)
      "shin" / "shout"    begin / end of a coroutine run under ignore_cancellation        "mark" id   observable progress
+     "join" id d         a task group with one child task (sleep d ticks, d >= 1, then mark id): the parent waits at the end of the group;
+                         for the parent this is a blocking operation of d ticks; if it is abandoned the child is cancelled with it
    ext = tick of the one external task.cancel() (INF: none).  Times are integer ticks.
 
    Rules: at a checkpoint the body is abandoned iff a scope visible from here (up to the nearest shield) is cancelled or an
@@ -86,6 +88,23 @@ Sleep == /\ Running /\ Cur.op = "sleep"
                       \/ /\ tc <= te /\ now' = tc /\ mode' = "unwind" /\ pc' = pc /\ stack' = Fire(stack, tc)
                       \/ /\ tc >= te /\ now' = te /\ mode' = "run" /\ pc' = pc + 1 /\ stack' = Fire(stack, te)
          /\ last' = NoEv /\ UNCHANGED par
+\* the end of a task group whose only child sleeps d ticks and then marks: a blocking operation for the parent.  It completes (and the
+\* child's mark is seen) iff nothing visible fires before the child is done; if the parent is abandoned there the child is cancelled and
+\* never marks; on an exact tie the child may have marked just before the parent is abandoned.
+Join == /\ Running /\ Cur.op = "join"
+        /\ LET d == Cur.d
+               done == Event("mark", Cur.id, FALSE, FALSE, "") IN
+           IF InShield
+           THEN now' = now + d /\ pc' = pc + 1 /\ mode' = mode /\ stack' = Fire(stack, now + d) /\ last' = [done EXCEPT !.t = now + d]
+           ELSE IF (\E k \in Visible : stack[k].cc) \/ ExtPending
+                THEN mode' = "unwind" /\ last' = NoEv /\ UNCHANGED <<now, pc, stack>>
+                ELSE LET ds == {stack[k].deadline : k \in Visible} \cup {Ext}
+                         tc == CHOOSE x \in ds : \A y \in ds : x <= y
+                         te == now + d IN
+                     \/ /\ tc <= te /\ now' = tc /\ mode' = "unwind" /\ pc' = pc /\ stack' = Fire(stack, tc) /\ last' = NoEv
+                     \/ /\ tc = te /\ now' = tc /\ mode' = "unwind" /\ pc' = pc /\ stack' = Fire(stack, tc) /\ last' = [done EXCEPT !.t = te]
+                     \/ /\ tc >= te /\ now' = te /\ mode' = "run" /\ pc' = pc + 1 /\ stack' = Fire(stack, te) /\ last' = [done EXCEPT !.t = te]
+        /\ UNCHANGED par
 \* a cancellation travelling outwards reaches the exit of the innermost frame
 Unwind(caught, c) ==
   /\ mode = "unwind" /\ Len(stack) > 0
@@ -114,7 +133,7 @@ EndCancelled == /\ mode = "unwind" /\ Len(stack) = 0 /\ Ext <= now
                 /\ last' = Event("end", 0, FALSE, FALSE, "CancelledError")
                 /\ mode' = "done" /\ UNCHANGED <<par, pc, now, stack>>
 
-Next == Mark \/ CancelOp \/ Resched \/ ShieldIn \/ ShieldOut \/ Enter \/ (\E c \in BOOLEAN : ExitNormal(c)) \/ Sleep
+Next == Mark \/ CancelOp \/ Resched \/ ShieldIn \/ ShieldOut \/ Enter \/ (\E c \in BOOLEAN : ExitNormal(c)) \/ Sleep \/ Join
         \/ (\E ca, c \in BOOLEAN : Unwind(ca, c)) \/ (\E n \in 0..1 : EndOk(n)) \/ EndCancelled
         \/ (mode = "done" /\ UNCHANGED vars)
 Spec == Init /\ [][Next]_vars /\ WF_vars(Next)
